@@ -1,0 +1,10 @@
+//go:build verif && (purego || !(amd64 || arm64 || s390x || ppc64le))
+
+package verifhook
+
+// the assembly field primitives do not exist in this build
+func P256Fel(op string, a, b *[32]byte, n, alias int) (out [32]byte, flag int) {
+	panic("verifhook: no assembly field primitives in this build")
+}
+
+const HasP256Fel = false
